@@ -541,7 +541,8 @@ pub fn fault_catalogue(nr: i64) -> Vec<Fault> {
             vec![Errno(libc::ENOMEM), Errno(libc::EACCES), Errno(libc::EIO)]
         }
         libc::SYS_statx => vec![Errno(libc::ENOMEM), Errno(libc::EACCES), Errno(libc::EIO), Errno(libc::EINVAL), Errno(libc::ENOSYS), StatxNoMntId],
-        libc::SYS_readlinkat | libc::SYS_readlink => vec![Errno(libc::ENOMEM), Errno(libc::EIO), Errno(libc::EACCES)],
+        // (ENAMETOOLONG: what readlink of /proc/<pid>/fd/<n> answers when the object's path does not fit a page)
+        libc::SYS_readlinkat | libc::SYS_readlink => vec![Errno(libc::ENOMEM), Errno(libc::EIO), Errno(libc::EACCES), Errno(libc::ENAMETOOLONG)],
         // (renameat2 is the one call of this group that old kernels / seccomp profiles lack, and that
         // filesystems refuse per flag)
         libc::SYS_renameat2 => vec![
